@@ -484,6 +484,9 @@ def spec_func(ex, st, ctx, name, args, node):
         return VBool(is_Bool(args[0]))
     if name == "isfloat":
         return VBool(is_Float(args[0]))
+    if name == "istrue":
+        # Python truthiness, taken in the state the expression is evaluated in (inside old(): the entry heap)
+        return VBool(ex.truth(args[0], st))
     if name == "isnum":
         return VBool(z3.Or(is_Int(args[0]), is_Float(args[0])))
     if name == "isnone":
